@@ -102,7 +102,25 @@ where
     ) -> Result<Option<ResetToken>, Error> {
         let seq = frame.sequence();
         let retire_prior_to = frame.retire_prior_to();
-        let active_len = seq.saturating_sub(retire_prior_to);
+
+        // Discard the frame if the sequence number is less than the current offset.
+        if seq < self.cid_deque.offset() {
+            return Ok(None);
+        }
+
+        // The connection IDs that stay active once this frame is applied: those received and not
+        // below Retire Prior To, minus the ones we have retired ourselves, plus the new one.
+        // (`seq - retire_prior_to` is neither: it is one short of the count when nothing was
+        // retired out of order, and too large when something was.)
+        let floor = retire_prior_to.max(self.cid_deque.offset());
+        let is_new = !matches!(self.cid_deque.get(seq), Some(Some(_)));
+        let active_len = self
+            .cid_deque
+            .enumerate()
+            .filter(|(s, cid)| *s >= floor && cid.is_some())
+            .filter(|(s, _)| !self.ready_cells.get(*s).is_some_and(|cell| cell.is_retired()))
+            .count() as u64
+            + is_new as u64;
         if active_len > self.active_cid_limit {
             return Err(QuicError::new(
                 ErrorKind::ConnectionIdLimit,
@@ -113,11 +131,6 @@ where
                 ),
             )
             .into());
-        }
-
-        // Discard the frame if the sequence number is less than the current offset.
-        if seq < self.cid_deque.offset() {
-            return Ok(None);
         }
 
         let id = *frame.connection_id();
